@@ -5,6 +5,7 @@ import (
 	"fmt"
 	"io"
 	"math/rand"
+	"strings"
 	"sync"
 	"sync/atomic"
 	"time"
@@ -13,6 +14,8 @@ import (
 	qnet "github.com/lugu/qiloop/bus/net"
 
 	"verif/ctl"
+	"verif/gen/probe"
+	"verif/svc"
 	rc "verif/refcodec"
 	"verif/stuck"
 	"verif/wk"
@@ -284,8 +287,152 @@ func c11run(p c11plan, seed int64) c11obs {
 	return obs
 }
 
+// c11real: the same property over real transports and the real server: calls parked inside the
+// method body, then the server terminates or the client closes its connection.
+func c11real(c *wk.Ctx, i int, rng *rand.Rand) {
+	transport := []string{"unix", "tcp"}[i%2]
+	side := []string{"server-terminate", "client-close"}[(i/2)%2]
+	w, err := newWorld(transport, nil)
+	if err != nil {
+		c.Inconclusive("real", i, "world: "+err.Error())
+		return
+	}
+	terminated := false
+	defer func() {
+		if !terminated {
+			w.close()
+		}
+	}()
+	release := make(chan struct{})
+	var parked int32
+	ps, err := w.addProbe("Probe", 2, func(im *svc.Impl) {
+		im.Gate = func(token uint64) {
+			if token >= 1000 {
+				return
+			}
+			atomic.AddInt32(&parked, 1)
+			<-release
+		}
+	})
+	if err != nil {
+		c.Inconclusive("real", i, err.Error())
+		return
+	}
+	sess, err := w.session()
+	if err != nil {
+		c.Inconclusive("real", i, err.Error())
+		return
+	}
+	var progress int64
+	K := 1 + rng.Intn(6)
+	proxies := make([]probe.ProbeProxy, K)
+	for k := range proxies {
+		p, err := proxyFor(sess, ps, ps.objs[k%2])
+		if err != nil {
+			c.Inconclusive("real", i, err.Error())
+			return
+		}
+		proxies[k] = p
+	}
+	var callbacks int32
+	proxies[0].Proxy().OnDisconnect(func(error) { atomic.AddInt32(&callbacks, 1) })
+	_, ticks, err := proxies[0].SubscribeTick()
+	if err != nil {
+		c.Inconclusive("real", i, err.Error())
+		return
+	}
+	evDone := make(chan struct{})
+	go func() {
+		for range ticks {
+		}
+		close(evDone)
+	}()
+	results := make([]string, K)
+	var wg sync.WaitGroup
+	for k := 0; k < K; k++ {
+		results[k] = "hung"
+		wg.Add(1)
+		go func(k int) {
+			defer wg.Done()
+			r, err := proxies[k].Work(uint64(k), "parked")
+			switch {
+			case err != nil:
+				results[k] = "err"
+			case r == svc.F(uint64(k), "parked"):
+				results[k] = "ok"
+			default:
+				results[k] = "wrong:" + r
+			}
+		}(k)
+	}
+	// wait until the calls are really in flight: the two objects each hold one parked call
+	stuck.WaitFunc(func() bool { return atomic.LoadInt32(&parked) >= int32(minI(K, 2)) }, &progress, time.Minute)
+	if side == "server-terminate" {
+		terminated = true
+		go func() { w.server.Terminate() }()
+	} else {
+		sess.Terminate()
+	}
+	done := make(chan struct{})
+	go func() { wg.Wait(); close(done) }()
+	v, dump := stuck.Wait(done, &progress, 3*time.Minute)
+	detail := map[string]interface{}{"transport": transport, "side": side, "calls": K, "results": results}
+	close(release)
+	if v == stuck.Stuck {
+		detail["dump"] = clipDump(dump)
+		c.Viol("real", i, "call=hung/"+side, "a call in flight never returned after the connection was closed", detail)
+		return
+	}
+	if v == stuck.Watchdog {
+		c.Inconclusive("real", i, "watchdog")
+		return
+	}
+	for k, r := range results {
+		if strings.HasPrefix(r, "wrong") {
+			c.Viol("real", i, "call=wrong-reply/"+side, fmt.Sprintf("call %d returned %s", k, r), detail)
+			return
+		}
+	}
+	if v, _ := stuck.Wait(evDone, &progress, 3*time.Minute); v == stuck.Stuck {
+		c.Viol("real", i, "events=not-closed/"+side, "the subscription channel was not closed after the connection was lost", detail)
+		return
+	}
+	late := make(chan string, 1)
+	go func() {
+		if _, err := proxies[0].Work(5000, "late"); err == nil {
+			late <- "ok"
+		} else {
+			late <- "err"
+		}
+	}()
+	lateDone := make(chan struct{})
+	lr := "hung"
+	go func() { lr = <-late; close(lateDone) }()
+	if v, d := stuck.Wait(lateDone, &progress, 3*time.Minute); v == stuck.Stuck {
+		detail["dump"] = clipDump(d)
+		c.Viol("real", i, "late-call=hung/"+side, "a call issued after the connection was lost never returned", detail)
+		return
+	}
+	if lr == "ok" {
+		c.Viol("real", i, "late-call=success/"+side, "a call issued after the connection was lost returned success", detail)
+		return
+	}
+	for y := 0; y < 20; y++ {
+		time.Sleep(50 * time.Microsecond)
+	}
+	if cb := atomic.LoadInt32(&callbacks); cb != 1 {
+		c.Viol("real", i, fmt.Sprintf("callback=%d-times/%s", cb, side), fmt.Sprintf("the disconnect callback ran %d times", cb), detail)
+		return
+	}
+	c.Nontrivial(wk.Hash64("C11real", transport, side, K))
+	c.Count("real_plans_"+side, 1)
+	if c.WantSample() && i%8 == 0 {
+		c.Sample(detail)
+	}
+}
+
 func c11(c *wk.Ctx) {
-	c.Note("rule", "fault enumeration over one scenario: a real bus.Client on a harness stream, OnDisconnect callback, one subscription, K in {1,3,8} concurrent calls answered by a scripted peer (one event, then each reply). The fault-free run counts the client's I/O operations (reads per fragment, one write per frame); plans: a fault (EOF, reset, short count + error; sticky) at every operation index, peer close after every byte count of its output, local Close() at every operation, a second fault at a later operation (thorough), and the early-reply schedule (Send returns only after the reply was consumed by the reader); each under whole-read and fragmented-read delivery. Oracle: every call returns (quiescence detector), success only with its own reply; without a fault every call succeeds; after the fault later calls fail, the events channel is closed, the disconnect callback ran exactly once. Distinct non-trivial = distinct plans whose fault was actually reached while a call or the subscription was pending.")
+	c.Note("rule", "fault enumeration over one scenario: a real bus.Client on a harness stream, OnDisconnect callback, one subscription, K in {1,3,8} concurrent calls answered by a scripted peer (one event, then each reply). The fault-free run counts the client's I/O operations (reads per fragment, one write per frame); plans: a fault (EOF, reset, short count + error; sticky) at every operation index, peer close after every byte count of its output, local Close() at every operation, a second fault at a later operation (thorough), and the early-reply schedule (Send returns only after the reply was consumed by the reader); each under whole-read and fragmented-read delivery; stream real = the same oracle over unix and tcp with the real server: 1-6 calls parked inside the method body, then Server.Terminate() or the client closing its session. Oracle: every call returns (quiescence detector), success only with its own reply; without a fault every call succeeds; after the fault later calls fail, the events channel is closed, the disconnect callback ran exactly once. Distinct non-trivial = distinct plans whose fault was actually reached while a call or the subscription was pending.")
 	type cfg struct{ K, Frag int }
 	cfgs := []cfg{{1, 0}, {1, 7}, {3, 0}, {3, 5}}
 	if c.Thorough() {
@@ -388,4 +535,5 @@ func c11(c *wk.Ctx) {
 			c.Sample(detail)
 		}
 	})
+	c.Cases("real", c.Pick(48, 1200), func(i int, rng *rand.Rand) { c11real(c, i, rng) })
 }
